@@ -736,6 +736,7 @@ func dyntype(x any) int { panic("spec") }
 func typeid[T any]() int { panic("spec") }
 func mapdom[K comparable, V any](m map[K]V, k K) bool { panic("spec") }
 func mapof[K comparable, V any](m map[K]V) map[K]V { panic("spec") }
+func mapkept[K comparable, V any](m map[K]V) bool { panic("spec") }
 func fnid(f any) int { panic("spec") }
 func strat(s string, i int) int { panic("spec") }
 func bits(f float64) uint64 { panic("spec") }
